@@ -31,7 +31,11 @@ RULE = ("one run = one graph specification (construction + arguments around "
         "'cnfgen kcolor|php|peb <spec> save <file>' (config cli) on a fair "
         "or adversarial PRNG; the result is compared with the promised "
         "structure and, for modifiers, with the graph obtained by replaying "
-        "the prefix of the specification under the same seed. Non-trivial: "
+        "the prefix of the specification under the same seed; a saved file "
+        "may be continued by two further commands on the same simulated "
+        "disk ('<file> [addedges k] save <file2>', then '<file2>'); 3% of "
+        "the lib runs build lazily stored bipartite constructions with a "
+        "right side of 2^53+1 .. 3^35 vertices. Non-trivial: "
         "the request was valid and used a random construction or a modifier;"
         " distinct = distinct (type, spec, PRNG seed, adversary).")
 ASSUMPTIONS = ["sizes <= ~12 vertices (isomorphism and clique search are "
